@@ -1,8 +1,8 @@
 package mocrelay
 
-func vpH_dbg_hex2() {
-	s := vpString("s", 2)
-	got := validHexString(s)
-	vpAssert(got == vpAllBytesIn(s, "0123456789abcdef"), "dbg.hex2")
+func vpH_dbg_glob() {
+	k := vpChoice("class", 3)
+	vpNoteInt64("kind", vpClsKind[k])
+	vpAssert(vpClsKind[3] == 20000, "dbg.kind")
 	vpReach("end")
 }
